@@ -41,7 +41,7 @@ def gen_graph(rng, n, p_hard=0.35, p_soft=0.2):
 
 
 def gen_outcomes(rng, n, p_ok=0.65):
-    return [('done' if rng.random() < 0.9 else 'intstatus') if rng.random() < p_ok
+    return [('done:%d' % rng.randrange(8) if rng.random() < 0.9 else 'intstatus') if rng.random() < p_ok
             else rng.choice(OUTCOMES[1:9]) + ':%d' % rng.randrange(63) for _ in range(n)]
 
 
@@ -91,6 +91,8 @@ def gen_case(rng, focus, big=False):
                'strategy': rng.choice(strategies), 'seed': rng.randrange(1 << 30)}
         if rng.random() < 0.35:
             run['tie_mod'] = rng.choice([2, 2, 3])
+        if i > 0 and focus in ('C01', 'C03') and rng.random() < 0.4:
+            run['carry'] = 'unpickled'
         if i > 0:
             run['lost'] = [t for t in range(n) if rng.random() < 0.3]
         runs.append(run)
@@ -133,6 +135,23 @@ CORPUS = [
     {'n': 3, 'hard': [[], [0], [1]], 'soft': [[], [], []], 'workers': 2,
      'runs': [{'outcomes': ['done', 'done', 'done'], 'strategy': 'uniform', 'seed': 11},
               {'outcomes': ['done', 'raise', 'done'], 'lost': [1], 'strategy': 'master_last', 'seed': 12}]},
+    # C04: a hard dependency ends SKIPPED in the second run (its own hard dependency is lost and fails)
+    # before the master first looks at the DONE dependent
+    {'n': 3, 'hard': [[], [0], [1]], 'soft': [[], [], []], 'workers': 2,
+     'runs': [{'outcomes': ['done', 'done', 'done'], 'strategy': 'uniform', 'seed': 23},
+              {'outcomes': ['raise', 'done', 'done'], 'lost': [0], 'strategy': 'master_last', 'seed': 24}]},
+    {'n': 4, 'hard': [[], [0], [1], [1]], 'soft': [[], [], [], [2]], 'workers': 3,
+     'runs': [{'outcomes': ['done', 'done', 'done', 'done'], 'strategy': 'uniform', 'seed': 25},
+              {'outcomes': ['failnone', 'done', 'done', 'done'], 'lost': [0], 'strategy': 'master_last', 'seed': 26}]},
+    # C04: a re-executed task whose update carries (stale) clocks for its own entry
+    {'n': 2, 'hard': [[], [0]], 'soft': [[], []], 'workers': 1,
+     'runs': [{'outcomes': ['done:1', 'done:1'], 'strategy': 'uniform', 'seed': 27},
+              {'outcomes': ['done:1', 'done:1'], 'lost': [0], 'strategy': 'uniform', 'seed': 28},
+              {'outcomes': ['done:1', 'done:1'], 'lost': [], 'strategy': 'uniform', 'seed': 29}]},
+    # C03: scheduling directly on an environment that went through pickle
+    {'n': 2, 'hard': [[], [0]], 'soft': [[], []], 'workers': 2,
+     'runs': [{'outcomes': ['done', 'raise'], 'strategy': 'uniform', 'seed': 30},
+              {'outcomes': ['done', 'done'], 'lost': [], 'carry': 'unpickled', 'strategy': 'uniform', 'seed': 31}]},
     # C04: clock tie between the end of a dependency and the start of its dependent: nothing to re-run
     {'n': 2, 'hard': [[], [0]], 'soft': [[], []], 'workers': 1,
      'runs': [{'outcomes': ['done', 'done'], 'strategy': 'uniform', 'seed': 15, 'tie_mod': 3},
